@@ -33,7 +33,8 @@ import Tickit.Gen.WinInputCfg
          every state the engine can reach (window creation, bindings, application actions, flushes, events)
          ........................................................... `reachable_good`, `mutation_safe_full`
          delivery to the windows a mutation does not affect: handlers that close, unref, hide, show or change
-         steal-input of windows of a set `A` closed under descendants (and restack or ref anything): the windows
+         steal-input of windows of a set `A` closed under descendants (and restack or ref anything, and take the
+         focus inside `A` when `A` is a union of top-level subtrees that holds the focus chain): the windows
          outside `A` are offered the event in the reference order of the tree as it was when the dispatch began
          ........................................................... `delivery_unaffected_key`, `delivery_unaffected_mouse`
 -/
@@ -704,7 +705,8 @@ theorem mutation_safe_full_operations : ∀ (st : St), Reachable st →
     consistent, children of windows of `A` are in `A`, and no stealing window outside `A` has a front-most sibling
     in `A`), not containing the root, and let every handler action be confined to `A` (`Conf`: close, unref, hide,
     show and steal-input act on windows of `A`; restack requests and extra references are unrestricted; `take_focus`
-    is excluded), in a state that satisfies the store invariant and in which the application still owns every
+    acts on a window of `A` and then `A` must be a union of whole top-level subtrees that also holds the root's
+    present focus chain, `FocusOK` — the windows the run-time monitor exempts), in a state that satisfies the store invariant and in which the application still owns every
     window outside `A`.  Then, whatever the handlers do and claim, the windows *outside `A`* are offered a key event in
     the reference order `keyVisits` of the tree **as it was when the dispatch began**: what is offered outside `A` is a
     prefix of the reference order outside `A` (also on first occurrences, i.e. against `keyOrder`), and all of it when
@@ -1026,5 +1028,26 @@ example :
       simp only [Option.map_some, Option.some.injEq] at h
       exact ⟨st, rfl, unaffectedCheck_sound h⟩
   exact ⟨key _ (by decide +kernel), key _ (by decide +kernel), key _ (by decide +kernel), by decide +kernel⟩
+
+namespace Scenario
+
+/-- Windows 1 and 2 on the root, 3 inside 2; the key handler of 1 gives 3 the focus and hides 2. -/
+def focusInsideA : Option St :=
+  build [opWin 0 ⟨0, 0, 2, 2⟩, opWin 0 ⟨2, 2, 2, 2⟩, opWin 2 ⟨0, 0, 1, 1⟩,
+         opBind 1 .key [{ ret := false, actions := [⟨.focus, 3⟩, ⟨.hide, 2⟩, ⟨.raise, 1⟩] }],
+         opBind 2 .key [decl], opBind 3 .key [decl], opBind 0 .key [decl]] (newSt 5 8)
+
+end Scenario
+
+open Scenario in
+/-- `delivery_unaffected_key` with `take_focus` inside a handler: `A` = {2, 3}, a whole top-level subtree. -/
+example : ∃ st, focusInsideA = some st ∧ Unaffected (fun x => x == 2 || x == 3) st := by
+  have h : (focusInsideA.map fun s => unaffectedCheck (fun x => x == 2 || x == 3) s) = some true := by decide +kernel
+  cases hb : focusInsideA with
+  | none => rw [hb] at h; simp at h
+  | some st =>
+    rw [hb] at h
+    simp only [Option.map_some, Option.some.injEq] at h
+    exact ⟨st, rfl, unaffectedCheck_sound h⟩
 
 end Tickit.Props.C14
